@@ -75,7 +75,7 @@ type PrintCtx struct {
 func (s *PrintCtx) source() *Source { return s.cachedSource.Extract(s.stackFrame) }
 
 func (s *PrintCtx) setentry(e *Entry) {
-	s.buf = s.buf[:0]
+	s.Reset() // a pooled object still carries the read offset and the last read of its last record
 	s.nested = 0
 
 	s.jsonMode = e.useJSON
